@@ -1,1 +1,313 @@
-// placeholder
+//! Hooked into `crates/step_sim/tests/test_macros.rs` (the derives emit `impl bourse_de::...`, so
+//! they can only be expanded outside `bourse_de`).  C20: the real `#[derive(AgentSet)]` /
+//! `#[derive(MarketAgentSet)]` expansions of enumerated struct shapes, run on a symbolic generator.
+#![allow(dead_code)]
+#![cfg(kani)]
+use bourse_book::types::{Side, Status};
+use bourse_book::verif::src::*;
+use bourse_book::{vcheck, vcover};
+use bourse_de::agents::{Agent, AgentSet, MarketAgent, MarketAgentSet};
+use bourse_de::verif::SymRng;
+use bourse_de::{Env, MarketEnv};
+use rand::RngCore;
+
+/// Probe agent: draws ONE word from the generator it is handed and submits one market order whose
+/// volume encodes that word and whose trader id is the probe's tag.
+pub struct Probe {
+    tag: u32,
+}
+/// a second agent type (submits on the other side) for mixed-type shapes
+pub struct ProbeB {
+    tag: u32,
+}
+pub fn vol_of(w: u32) -> u32 {
+    if w == 0 {
+        1
+    } else {
+        w
+    }
+}
+impl Agent for Probe {
+    fn update<R: RngCore>(&mut self, env: &mut Env, rng: &mut R) {
+        let w = rng.next_u32();
+        env.place_order(Side::Ask, vol_of(w), self.tag, None).unwrap();
+    }
+}
+impl Agent for ProbeB {
+    fn update<R: RngCore>(&mut self, env: &mut Env, rng: &mut R) {
+        let w = rng.next_u32();
+        env.place_order(Side::Bid, vol_of(w), self.tag, None).unwrap();
+    }
+}
+/// market-environment probes (a type implementing both traits would make the generated
+/// `self.field.update(..)` ambiguous)
+pub struct MProbe {
+    tag: u32,
+}
+pub struct MProbeB {
+    tag: u32,
+}
+impl MarketAgent for MProbe {
+    fn update<R: RngCore, const M: usize, const N: usize>(&mut self, env: &mut MarketEnv<M, N>, rng: &mut R) {
+        let w = rng.next_u32();
+        env.place_order(0, Side::Ask, vol_of(w), self.tag, None).unwrap();
+    }
+}
+impl MarketAgent for MProbeB {
+    fn update<R: RngCore, const M: usize, const N: usize>(&mut self, env: &mut MarketEnv<M, N>, rng: &mut R) {
+        let w = rng.next_u32();
+        env.place_order(0, Side::Bid, vol_of(w), self.tag, None).unwrap();
+    }
+}
+
+#[derive(AgentSet)]
+pub struct S1 {
+    a: Probe,
+}
+#[derive(AgentSet)]
+pub struct S2 {
+    a: Probe,
+    b: ProbeB,
+}
+#[derive(AgentSet)]
+pub struct S3 {
+    a: Probe,
+    b: Probe,
+    c: ProbeB,
+}
+#[derive(AgentSet)]
+pub struct S4 {
+    pub a: ProbeB,
+    pub b: Probe,
+    pub c: Probe,
+    pub d: ProbeB,
+}
+/// a field that is itself a derived set
+#[derive(AgentSet)]
+pub struct Nested {
+    x: Probe,
+    inner: S2,
+    y: ProbeB,
+}
+#[derive(AgentSet)]
+pub struct S8 {
+    a: Probe,
+    b: ProbeB,
+    c: Probe,
+    d: Probe,
+    e: ProbeB,
+    f: ProbeB,
+    g: Probe,
+    h: ProbeB,
+}
+#[derive(MarketAgentSet)]
+pub struct M1 {
+    a: MProbe,
+}
+#[derive(MarketAgentSet)]
+pub struct M3 {
+    a: MProbe,
+    b: MProbeB,
+    c: MProbe,
+}
+#[derive(MarketAgentSet)]
+pub struct MNested {
+    x: MProbeB,
+    inner: M3,
+    y: MProbe,
+}
+#[derive(MarketAgentSet)]
+pub struct M8 {
+    a: MProbeB,
+    b: MProbe,
+    c: MProbe,
+    d: MProbeB,
+    e: MProbe,
+    f: MProbeB,
+    g: MProbeB,
+    h: MProbe,
+}
+
+fn mk_env() -> Env {
+    let t = any_u64();
+    let step = any_u64();
+    Env::new(t, 1, step, any_bool())
+}
+fn mk_menv() -> MarketEnv<2, 2> {
+    let t = any_u64();
+    let step = any_u64();
+    MarketEnv::<2, 2>::new(t, [1, 1], step, any_bool())
+}
+
+/// after one `update` of a set with `n` probes: order k was submitted by tag k+1, carries word k,
+/// on the side of that field's type; the generator was advanced exactly n times
+fn audit(env: &Env, rng: &SymRng, n: usize, bid: &[bool]) {
+    vcheck!(env.get_orderbook().verif_n_orders() == n, "SET.one_order_per_member");
+    vcheck!(env.verif_queue_len() == n, "SET.one_instruction_per_member");
+    vcheck!(rng.calls == n, "SET.generator_advanced_once_per_member");
+    let mut ok_tag = true;
+    let mut ok_word = true;
+    let mut ok_side = true;
+    let mut k = 0;
+    while k < n {
+        if k < env.get_orderbook().verif_n_orders() {
+            let o = env.order(k);
+            ok_tag &= o.trader_id == (k as u32) + 1;
+            ok_word &= o.vol == vol_of(rng.log[k] as u32);
+            ok_side &= matches!(o.side, Side::Bid) == bid[k];
+            ok_side &= o.status == Status::New;
+        }
+        k += 1;
+    }
+    vcheck!(ok_tag, "SET.members_updated_in_declaration_order");
+    vcheck!(ok_word, "SET.draw_k_went_to_member_k_shared_generator");
+    vcheck!(ok_side, "SET.each_member_ran_its_own_update");
+}
+fn same_orders(a: &Env, b: &Env, n: usize) -> bool {
+    let mut ok = a.get_orderbook().verif_n_orders() == b.get_orderbook().verif_n_orders();
+    let mut k = 0;
+    while k < n {
+        if k < a.get_orderbook().verif_n_orders() && k < b.get_orderbook().verif_n_orders() {
+            let (x, y) = (a.order(k), b.order(k));
+            ok &= x.trader_id == y.trader_id && x.vol == y.vol && matches!(x.side, Side::Bid) == matches!(y.side, Side::Bid) && x.price == y.price;
+        }
+        k += 1;
+    }
+    ok
+}
+fn maudit(env: &MarketEnv<2, 2>, rng: &SymRng, n: usize, bid: &[bool]) {
+    let b = env.get_market().get_order_book(0);
+    vcheck!(b.verif_n_orders() == n && env.get_market().get_order_book(1).verif_n_orders() == 0, "SET.one_order_per_member");
+    vcheck!(rng.calls == n, "SET.generator_advanced_once_per_member");
+    let mut ok_tag = true;
+    let mut ok_word = true;
+    let mut ok_side = true;
+    let mut k = 0;
+    while k < n {
+        if k < b.verif_n_orders() {
+            let o = env.order((0, k));
+            ok_tag &= o.trader_id == (k as u32) + 1;
+            ok_word &= o.vol == vol_of(rng.log[k] as u32);
+            ok_side &= matches!(o.side, Side::Bid) == bid[k];
+        }
+        k += 1;
+    }
+    vcheck!(ok_tag, "SET.members_updated_in_declaration_order");
+    vcheck!(ok_word, "SET.draw_k_went_to_member_k_shared_generator");
+    vcheck!(ok_side, "SET.each_member_ran_its_own_update");
+}
+
+#[kani::proof]
+#[kani::unwind(12)]
+pub fn c20_agentset_1_2_3() {
+    // shape 1
+    let mut env = mk_env();
+    let mut rng = SymRng::new();
+    let mut s = S1 { a: Probe { tag: 1 } };
+    AgentSet::update(&mut s, &mut env, &mut rng);
+    audit(&env, &rng, 1, &[false]);
+    // shape 2: two different member types
+    let mut env = mk_env();
+    let mut rng = SymRng::new();
+    let mut s = S2 { a: Probe { tag: 1 }, b: ProbeB { tag: 2 } };
+    AgentSet::update(&mut s, &mut env, &mut rng);
+    audit(&env, &rng, 2, &[false, true]);
+    // shape 3: repeated type + hand-written equivalent on a twin environment
+    let t = any_u64();
+    let step = any_u64();
+    let tr = any_bool();
+    let mut env = Env::new(t, 1, step, tr);
+    let mut twin = Env::new(t, 1, step, tr);
+    let mut rng = SymRng::new();
+    rng.push_u32();
+    rng.push_u32();
+    rng.push_u32();
+    let mut rng2 = rng;
+    let mut s = S3 { a: Probe { tag: 1 }, b: Probe { tag: 2 }, c: ProbeB { tag: 3 } };
+    AgentSet::update(&mut s, &mut env, &mut rng);
+    let mut h = S3 { a: Probe { tag: 1 }, b: Probe { tag: 2 }, c: ProbeB { tag: 3 } };
+    Agent::update(&mut h.a, &mut twin, &mut rng2);
+    Agent::update(&mut h.b, &mut twin, &mut rng2);
+    Agent::update(&mut h.c, &mut twin, &mut rng2);
+    audit(&env, &rng, 3, &[false, false, true]);
+    vcheck!(same_orders(&env, &twin, 3) && rng.calls == rng2.calls, "SET.interchangeable_with_hand_written_sequence");
+    vcover!(env.order(0).vol != env.order(1).vol, "cover.distinct_words");
+}
+
+#[kani::proof]
+#[kani::unwind(12)]
+pub fn c20_agentset_4_nested() {
+    let mut env = mk_env();
+    let mut rng = SymRng::new();
+    let mut s = S4 { a: ProbeB { tag: 1 }, b: Probe { tag: 2 }, c: Probe { tag: 3 }, d: ProbeB { tag: 4 } };
+    AgentSet::update(&mut s, &mut env, &mut rng);
+    audit(&env, &rng, 4, &[true, false, false, true]);
+    // a member that is itself a derived set: its members run in place, in order
+    let mut env = mk_env();
+    let mut rng = SymRng::new();
+    let mut s = Nested { x: Probe { tag: 1 }, inner: S2 { a: Probe { tag: 2 }, b: ProbeB { tag: 3 } }, y: ProbeB { tag: 4 } };
+    AgentSet::update(&mut s, &mut env, &mut rng);
+    audit(&env, &rng, 4, &[false, false, true, true]);
+    vcover!(env.order(3).vol == 7, "cover.reached_end");
+}
+
+#[kani::proof]
+#[kani::unwind(12)]
+pub fn c20_agentset_8() {
+    let mut env = mk_env();
+    let mut rng = SymRng::new();
+    let mut s = S8 {
+        a: Probe { tag: 1 },
+        b: ProbeB { tag: 2 },
+        c: Probe { tag: 3 },
+        d: Probe { tag: 4 },
+        e: ProbeB { tag: 5 },
+        f: ProbeB { tag: 6 },
+        g: Probe { tag: 7 },
+        h: ProbeB { tag: 8 },
+    };
+    AgentSet::update(&mut s, &mut env, &mut rng);
+    audit(&env, &rng, 8, &[false, true, false, false, true, true, false, true]);
+    vcover!(env.order(7).vol == 7, "cover.reached_end");
+}
+
+#[kani::proof]
+#[kani::unwind(12)]
+pub fn c20_marketagentset_1_3_nested() {
+    let mut env = mk_menv();
+    let mut rng = SymRng::new();
+    let mut s = M1 { a: MProbe { tag: 1 } };
+    MarketAgentSet::update(&mut s, &mut env, &mut rng);
+    maudit(&env, &rng, 1, &[false]);
+    let mut env = mk_menv();
+    let mut rng = SymRng::new();
+    let mut s = M3 { a: MProbe { tag: 1 }, b: MProbeB { tag: 2 }, c: MProbe { tag: 3 } };
+    MarketAgentSet::update(&mut s, &mut env, &mut rng);
+    maudit(&env, &rng, 3, &[false, true, false]);
+    let mut env = mk_menv();
+    let mut rng = SymRng::new();
+    let mut s = MNested { x: MProbeB { tag: 1 }, inner: M3 { a: MProbe { tag: 2 }, b: MProbeB { tag: 3 }, c: MProbe { tag: 4 } }, y: MProbe { tag: 5 } };
+    MarketAgentSet::update(&mut s, &mut env, &mut rng);
+    maudit(&env, &rng, 5, &[true, false, true, false, false]);
+    vcover!(env.order((0, 4)).vol == 7, "cover.reached_end");
+}
+
+#[kani::proof]
+#[kani::unwind(12)]
+pub fn c20_marketagentset_8() {
+    let mut env = mk_menv();
+    let mut rng = SymRng::new();
+    let mut s = M8 {
+        a: MProbeB { tag: 1 },
+        b: MProbe { tag: 2 },
+        c: MProbe { tag: 3 },
+        d: MProbeB { tag: 4 },
+        e: MProbe { tag: 5 },
+        f: MProbeB { tag: 6 },
+        g: MProbeB { tag: 7 },
+        h: MProbe { tag: 8 },
+    };
+    MarketAgentSet::update(&mut s, &mut env, &mut rng);
+    maudit(&env, &rng, 8, &[true, false, false, true, false, true, true, false]);
+    vcover!(env.order((0, 7)).vol == 7, "cover.reached_end");
+}
